@@ -451,9 +451,15 @@ fn shape_main(args: &[String]) {
     let mut pages: BTreeMap<usize, u64> = BTreeMap::new();
     let mut depth_hist: BTreeMap<u32, u64> = BTreeMap::new();
     let mut total_ops = 0u64;
-    for id in 0..n {
+    // level 4: one extract sweep program (gen_shape_sweep_program) per five random programs, appended with their own ids
+    let n_sweeps: u64 = if from_file.is_none() && level >= 4 { n / 5 } else { 0 };
+    for id in 0..(n + n_sweeps) {
         let mut pr = r.fork(id);
-        let prog = match &from_file { Some(p) => p[id as usize].clone(), None => gen_shape_program(&mut pr, id, tier_is_thorough(), level) };
+        let prog = match &from_file {
+            Some(p) => p[id as usize].clone(),
+            None if id >= n => util::gen_shape_sweep_program(&mut pr, id, tier_is_thorough()),
+            None => gen_shape_program(&mut pr, id, tier_is_thorough(), level),
+        };
         cases_f.write_all(prog.to_text().as_bytes()).unwrap();
         cases_f.flush().unwrap();
         *shapes.entry(prog.shape).or_default() += 1;
@@ -469,7 +475,7 @@ fn shape_main(args: &[String]) {
     }
     writeln!(progress_f, "DONE").unwrap();
     let mut st = String::new();
-    writeln!(st, "shape_programs={} shape_ops={}", n, total_ops).unwrap();
+    writeln!(st, "shape_programs={} shape_ops={}", n + n_sweeps, total_ops).unwrap();
     writeln!(st, "shape_opkinds={}", opk.iter().map(|(k, v)| format!("{k}:{v}")).collect::<Vec<_>>().join(",")).unwrap();
     writeln!(st, "shape_shapes={}", shapes.iter().map(|(k, v)| format!("{k}:{v}")).collect::<Vec<_>>().join(",")).unwrap();
     writeln!(st, "shape_tables={}", tables.iter().map(|(k, v)| format!("{k}:{v}")).collect::<Vec<_>>().join(";")).unwrap();
